@@ -205,7 +205,7 @@ impl World {
                 Obj::Once => RObj::Once(Once::new()),
                 Obj::Chan(cap) => {
                     let owners = prog.sender_owners(i);
-                    let mut tx: Vec<Slot<Option<Tx>>> = (0..nt).map(|_| Slot::new(None)).collect();
+                    let tx: Vec<Slot<Option<Tx>>> = (0..nt).map(|_| Slot::new(None)).collect();
                     let rx;
                     match cap {
                         None => {
